@@ -668,9 +668,9 @@ fn negative_int_to_asg_type(n: synast::IntNumber) -> asg::IntLiteral {
     asg::IntLiteral::new(num, false) // `false` means negative
 }
 
-// True if `expr` is an integer literal, possibly with a unit and possibly negated, such that
-// `value_u128` is `None`.
-fn is_unrepresentable_int_literal(expr: &synast::Expr) -> bool {
+// True if `expr` is a literal, possibly with a unit and possibly negated, whose value
+// cannot be computed.
+fn is_unrepresentable_literal(expr: &synast::Expr) -> bool {
     let operand = match expr {
         synast::Expr::PrefixExpr(prefix_expr) => prefix_expr.expr(),
         _ => Some(expr.clone()),
@@ -680,10 +680,13 @@ fn is_unrepresentable_int_literal(expr: &synast::Expr) -> bool {
         Some(synast::Expr::TimingLiteral(timing_literal)) => timing_literal.literal(),
         _ => None,
     };
-    matches!(
-        literal.map(|literal| literal.kind()),
-        Some(synast::LiteralKind::IntNumber(int_num)) if int_num.value_u128().is_none()
-    )
+    match literal.map(|literal| literal.kind()) {
+        Some(synast::LiteralKind::IntNumber(int_num)) => int_num.value_u128().is_none(),
+        // For example a literal followed by an identifier that is not a unit: `0.5x`, `"01"x`.
+        Some(synast::LiteralKind::FloatNumber(float_num)) => float_num.value().is_none(),
+        Some(synast::LiteralKind::BitString(bit_string)) => bit_string.str().is_none(),
+        _ => false,
+    }
 }
 
 fn expr_to_asg_texpr(
@@ -691,9 +694,9 @@ fn expr_to_asg_texpr(
     context: &mut Context,
 ) -> Option<asg::TExpr> {
     let expr = expr_maybe?;
-    // An integer literal whose value cannot be computed (it does not fit in 128 bits, or has
-    // digits that do not belong to its radix) cannot be represented in the ASG.
-    if is_unrepresentable_int_literal(&expr) {
+    // A literal whose value cannot be computed (for example an integer that does not fit in
+    // 128 bits, or has digits that do not belong to its radix) cannot be represented in the ASG.
+    if is_unrepresentable_literal(&expr) {
         return not_impl_expr!(context, expr);
     }
     match expr {
